@@ -299,6 +299,29 @@ var alphabet = map[string]opFn{
 		}
 		return must(tensor.MinBetween(k, a))
 	},
+	// a private CLONE of a shared tensor is the goroutine's own: it may transpose, reshape and hand it back
+	"CloneMutate": func(s *sharedSet, p *tensor.Dense, r *rand.Rand) []float64 {
+		c := s.ts[[]string{"M", "MT", "MS"}[r.Intn(3)]].Clone().(*tensor.Dense)
+		switch r.Intn(5) {
+		case 0:
+			c.Transpose()
+		case 1:
+			c.T()
+			c.Transpose()
+		case 2:
+			if err := c.Reshape(12); err != nil {
+				return []float64{-12345}
+			}
+		case 3:
+			c.UT()
+		default:
+			out := flat(c)
+			tensor.ReturnTensor(c)
+			return out
+		}
+		tensor.Add(c, 1.0, tensor.UseUnsafe())
+		return flat(c)
+	},
 	"Repeat": func(s *sharedSet, p *tensor.Dense, r *rand.Rand) []float64 {
 		return must(tensor.Repeat(s.ts[[]string{"M", "MT", "MS"}[r.Intn(3)]], r.Intn(2), 2))
 	},
@@ -366,6 +389,15 @@ func snapshotShared(s *sharedSet) map[string][]float64 {
 			d = append(d, float64(x))
 		}
 		for _, x := range t.Strides() {
+			d = append(d, float64(x))
+		}
+		// the saved access pattern of a pending transposition, observed through a clone that undoes it
+		c := t.Clone().(*tensor.Dense)
+		c.UT()
+		for _, x := range c.Shape() {
+			d = append(d, float64(x))
+		}
+		for _, x := range c.Strides() {
 			d = append(d, float64(x))
 		}
 		m[n] = d
@@ -436,10 +468,34 @@ func main() {
 			before := snapshotShared(s)
 			for k := 0; k < 12; k++ {
 				run = k
-				alphabet[op](s, tensor.New(tensor.WithShape(3, 4), tensor.WithBacking(rangeF(12, 1))), rand.New(rand.NewSource(int64(k))))
+				func() {
+					// a panic of the library while an operation runs ALONE is an observation of the code, not a harness failure
+					defer func() {
+						if p := recover(); p != nil {
+							writes = append(writes, []string{"panic", op, fmt.Sprintf("%v", p)})
+						}
+					}()
+					alphabet[op](s, tensor.New(tensor.WithShape(3, 4), tensor.WithBacking(rangeF(12, 1))), rand.New(rand.NewSource(int64(k))))
+				}()
 			}
 			setHook(nil)
-			after := snapshotShared(s)
+			var after map[string][]float64
+			func() {
+				defer func() {
+					if p := recover(); p != nil {
+						writes = append(writes, []string{"panic", op, fmt.Sprintf("while reading the shared tensors afterwards: %v", p)})
+						after = before
+						s = mkShared() // the shared set is corrupt: start the next operation from a fresh one
+						for k := range ids {
+							delete(ids, k)
+						}
+						for _, nme := range s.names {
+							ids[reflect.ValueOf(s.ts[nme]).Pointer()] = nme
+						}
+					}
+				}()
+				after = snapshotShared(s)
+			}()
 			if !reflect.DeepEqual(before, after) {
 				writes = append(writes, []string{"wr", "?", "shared tensor observably changed"})
 			}
